@@ -34,6 +34,10 @@ import (
 // ErrAsyncNoSpace is returned when an write queue full if not writeForever flags.
 var ErrAsyncNoSpace = errors.New("async write queue is full")
 
+// ErrChannelClosed is returned by the write methods of a closed channel
+// when Close was not given an error of its own.
+var ErrChannelClosed = errors.New("netty: channel closed")
+
 // Channel is defines a server-side-channel & client-side-channel
 type Channel interface {
 	// ID channel id
@@ -160,8 +164,19 @@ type channel struct {
 	untilWrite     bool
 	closed         int32
 	running        int32
-	closeErr       error
-	writeLock      sync.Mutex // for sync write
+	closeErr       atomic.Value // closeError, stored by the Close call that took effect
+	writeLock      sync.Mutex   // for sync write
+}
+
+// closeError boxes the error given to Close (atomic.Value cannot hold nil).
+type closeError struct{ err error }
+
+// closedError returns the error reported by writes on a closed channel, never nil.
+func (c *channel) closedError() error {
+	if box, ok := c.closeErr.Load().(closeError); ok && nil != box.err {
+		return box.err
+	}
+	return ErrChannelClosed
 }
 
 // ID get channel id
@@ -174,7 +189,7 @@ func (c *channel) Write(message Message) error {
 	if !c.IsActive() {
 		select {
 		case <-c.ctx.Done():
-			return c.closeErr
+			return c.closedError()
 		}
 	}
 
@@ -204,7 +219,7 @@ func (c *channel) Close(err error) {
 			}
 		}
 
-		c.closeErr = err
+		c.closeErr.Store(closeError{err})
 		c.transport.Close()
 		c.cancel()
 
@@ -216,8 +231,8 @@ func (c *channel) Close(err error) {
 
 // Writev to write [][]byte for optimize syscall
 func (c *channel) Writev(p [][]byte) (n int64, err error) {
-	if nil != c.closeErr {
-		return 0, c.closeErr
+	if !c.IsActive() {
+		return 0, c.closedError()
 	}
 
 	// enable async write
@@ -242,6 +257,10 @@ func (c *channel) Write1(p []byte) (n int, err error) {
 // CtxWrite1 channels with asynchronous write enabled, writes will block until the write is successfully sent to the queue or times out.
 // for synchronous write channels, SetDeadline will be called to ensure that the blocking write operation is interrupted after a timeout.
 func (c *channel) CtxWrite1(ctx context.Context, p []byte) (n int, err error) {
+	if !c.IsActive() {
+		return 0, c.closedError()
+	}
+
 	// enable async write
 	if nil != c.writeQueue {
 		wn, err := c.asyncWrite(ctx, p, true)
@@ -269,6 +288,10 @@ func (c *channel) CtxWrite1(ctx context.Context, p []byte) (n int, err error) {
 // CtxWritev channels with asynchronous write enabled, writes will block until the write is successfully sent to the queue or times out.
 // for synchronous write channels, SetDeadline will be called to ensure that the blocking write operation is interrupted after a timeout.
 func (c *channel) CtxWritev(ctx context.Context, pv [][]byte) (n int64, err error) {
+	if !c.IsActive() {
+		return 0, c.closedError()
+	}
+
 	// enable async write
 	if nil != c.writeQueue {
 		wn, err := c.asyncWritev(ctx, pv)
@@ -296,8 +319,8 @@ func (c *channel) CtxWritev(ctx context.Context, pv [][]byte) (n int64, err erro
 // ReadFrom reads data from r until EOF or error.
 // The return value n is the number of bytes read.
 func (c *channel) ReadFrom(r io.Reader) (n int64, err error) {
-	if nil != c.closeErr {
-		return 0, c.closeErr
+	if !c.IsActive() {
+		return 0, c.closedError()
 	}
 
 	const MinRead = 1024
@@ -338,8 +361,8 @@ func (c *channel) Writer() io.Writer {
 }
 
 func (c *channel) write1(p []byte, clone bool) (n int, err error) {
-	if nil != c.closeErr {
-		return 0, c.closeErr
+	if !c.IsActive() {
+		return 0, c.closedError()
 	}
 
 	// enable async write
@@ -380,7 +403,7 @@ func (c *channel) asyncWrite(ctx context.Context, p []byte, clone bool) (int64, 
 		case <-ctx.Done():
 			return 0, ctx.Err()
 		case <-c.ctx.Done():
-			return 0, c.closeErr
+			return 0, c.closedError()
 		case c.writeQueue <- packet:
 			// write queue
 		}
@@ -389,7 +412,7 @@ func (c *channel) asyncWrite(ctx context.Context, p []byte, clone bool) (int64, 
 		case <-ctx.Done():
 			return 0, ctx.Err()
 		case <-c.ctx.Done():
-			return 0, c.closeErr
+			return 0, c.closedError()
 		case c.writeQueue <- packet:
 			// write queue
 		default:
@@ -429,7 +452,7 @@ func (c *channel) asyncWritev(ctx context.Context, p [][]byte) (int64, error) {
 		case <-ctx.Done():
 			return 0, ctx.Err()
 		case <-c.ctx.Done():
-			return 0, c.closeErr
+			return 0, c.closedError()
 		case c.writeQueue <- packet:
 			// write queue
 		}
@@ -438,7 +461,7 @@ func (c *channel) asyncWritev(ctx context.Context, p [][]byte) (int64, error) {
 		case <-ctx.Done():
 			return 0, ctx.Err()
 		case <-c.ctx.Done():
-			return 0, c.closeErr
+			return 0, c.closedError()
 		case c.writeQueue <- packet:
 			// write queue
 		default:
